@@ -247,8 +247,9 @@ loop:
 	}
 	werr := cmd.Wait()
 	res.Output = other.String() + stderr.String()
-	if len(res.Output) > 8000 {
-		res.Output = res.Output[len(res.Output)-8000:]
+	if len(res.Output) > 16000 {
+		// keep the head (fatal error / race report header) and the tail
+		res.Output = res.Output[:10000] + "\n...[cut]...\n" + res.Output[len(res.Output)-6000:]
 	}
 	if !res.Complete && !res.TimedOut && res.Err == nil {
 		res.Err = fmt.Errorf("child ended without completing the job: %v", werr)
